@@ -6,10 +6,12 @@
 package main
 
 import (
+	"bufio"
 	"encoding/json"
 	"flag"
 	"fmt"
 	"go/types"
+	"io"
 	"os"
 	"os/exec"
 	"regexp"
@@ -41,9 +43,15 @@ func main() {
 	trace := flag.Bool("trace", false, "trace instructions")
 	workers := flag.Int("workers", 1, "worker processes per harness (the decision tree is split breadth-first)")
 	prefixFile := flag.String("prefixes", "", "(worker mode) JSON file with the decision prefixes to explore")
+	serve := flag.Bool("serve", false, "(worker mode) read {harness, prefixes} requests as JSON lines on stdin, answer with result lines on stdout")
 	stubList := flag.String("stub", "", "comma-separated target=HarnessFunc: calls of target (ssa Function.String()) run HarnessFunc (declared in the harness package) instead")
 	flag.Parse()
 
+	var pool *workerPool
+	if *workers > 1 && !*serve && *prefixFile == "" {
+		pool = startPool(*workers) // the workers load the packages while this process does
+		defer pool.stop()
+	}
 	overlay := map[string][]byte{}
 	if *overlayFile != "" {
 		raw, err := os.ReadFile(*overlayFile)
@@ -110,6 +118,10 @@ func main() {
 			interp.SetStub(kv[0], repl)
 		}
 	}
+	if *serve {
+		serveLoop(sess, spkgs)
+		return
+	}
 	re := regexp.MustCompile(*harnessRe)
 	type output struct {
 		LoadMs  int64            `json:"load_ms"`
@@ -138,11 +150,11 @@ func main() {
 				var pf [][]interp.Decision
 				check(json.Unmarshal(raw, &pf))
 				r, _ = sess.ExploreFrom(f, pf, 0)
-			case *workers > 1:
+			case pool != nil:
 				var left [][]interp.Decision
 				r, left = sess.ExploreFrom(f, nil, *workers*6)
 				if len(left) > 0 {
-					r = runWorkers(r, left, *workers, name, *out)
+					pool.run(r, left, name)
 				}
 			default:
 				r = sess.Explore(f)
@@ -159,73 +171,123 @@ func main() {
 	}
 }
 
-// runWorkers distributes the queued subtrees over worker processes (this same binary with -prefixes) and merges their results.
-func runWorkers(r *interp.Result, left [][]interp.Decision, n int, harness, out string) *interp.Result {
+// ---- worker pool: the same binary in -serve mode; each worker loads the packages once and then explores the decision subtrees it is given
+
+type request struct {
+	Harness  string              `json:"harness"`
+	Prefixes [][]interp.Decision `json:"prefixes"`
+}
+
+type worker struct {
+	cmd *exec.Cmd
+	in  *bufio.Writer
+	out *bufio.Reader
+	raw io.WriteCloser
+}
+
+type workerPool struct{ ws []*worker }
+
+func startPool(n int) *workerPool {
+	p := &workerPool{}
+	var args []string
+	skip := false
+	for _, a := range os.Args[1:] {
+		if skip {
+			skip = false
+			continue
+		}
+		switch {
+		case a == "-workers" || a == "-out" || a == "-harness" || a == "--workers" || a == "--out" || a == "--harness":
+			skip = true
+			continue
+		case strings.HasPrefix(a, "-workers=") || strings.HasPrefix(a, "-out=") || strings.HasPrefix(a, "-harness="):
+			continue
+		}
+		args = append(args, a)
+	}
+	args = append(args, "-serve")
+	for i := 0; i < n; i++ {
+		c := exec.Command(os.Args[0], args...)
+		in, err := c.StdinPipe()
+		check(err)
+		out, err := c.StdoutPipe()
+		check(err)
+		c.Stderr = nil
+		check(c.Start())
+		p.ws = append(p.ws, &worker{cmd: c, in: bufio.NewWriter(in), out: bufio.NewReaderSize(out, 1<<20), raw: in})
+	}
+	return p
+}
+
+func (p *workerPool) stop() {
+	for _, w := range p.ws {
+		w.raw.Close()
+		w.cmd.Wait()
+	}
+}
+
+// run distributes the queued subtrees round-robin, waits for all workers and merges their results into r.
+func (p *workerPool) run(r *interp.Result, left [][]interp.Decision, harness string) {
+	n := len(p.ws)
 	if n > len(left) {
 		n = len(left)
 	}
-	base := out
-	if base == "" {
-		base = os.TempDir() + "/gosym"
-	}
-	type job struct {
-		cmd  *exec.Cmd
-		outf string
-	}
-	var jobs []job
-	for w := 0; w < n; w++ {
+	for wi := 0; wi < n; wi++ {
 		var mine [][]interp.Decision
-		for i := w; i < len(left); i += n {
+		for i := wi; i < len(left); i += n {
 			mine = append(mine, left[i])
 		}
-		pf := fmt.Sprintf("%s.w%d.prefixes.json", base, w)
-		of := fmt.Sprintf("%s.w%d.out.json", base, w)
-		b, _ := json.Marshal(mine)
-		check(os.WriteFile(pf, b, 0o644))
-		var args []string
-		skip := false
-		for _, a := range os.Args[1:] {
-			if skip {
-				skip = false
-				continue
-			}
-			switch {
-			case a == "-workers" || a == "-out" || a == "-harness" || a == "--workers" || a == "--out" || a == "--harness":
-				skip = true
-				continue
-			case strings.HasPrefix(a, "-workers=") || strings.HasPrefix(a, "-out=") || strings.HasPrefix(a, "-harness="):
-				continue
-			}
-			args = append(args, a)
-		}
-		args = append(args, "-harness", "^"+harness+"$", "-prefixes", pf, "-out", of)
-		c := exec.Command(os.Args[0], args...)
-		c.Stderr = nil
-		check(c.Start())
-		jobs = append(jobs, job{c, of})
+		b, _ := json.Marshal(request{Harness: harness, Prefixes: mine})
+		w := p.ws[wi]
+		w.in.Write(b)
+		w.in.WriteByte('\n')
+		w.in.Flush()
 	}
-	for _, j := range jobs {
-		if err := j.cmd.Wait(); err != nil {
+	for wi := 0; wi < n; wi++ {
+		line, err := p.ws[wi].out.ReadBytes('\n')
+		if err != nil {
 			r.Truncated = true
 			fmt.Fprintln(os.Stderr, "[gosym] worker failed:", err)
 			continue
 		}
-		raw, err := os.ReadFile(j.outf)
-		if err != nil {
+		var part interp.Result
+		if json.Unmarshal(line, &part) != nil || part.Ends == nil {
 			r.Truncated = true
 			continue
 		}
-		var wo struct {
-			Results []*interp.Result `json:"results"`
-		}
-		if json.Unmarshal(raw, &wo) != nil || len(wo.Results) != 1 {
-			r.Truncated = true
-			continue
-		}
-		r.Merge(wo.Results[0])
-		os.Remove(j.outf)
+		r.Merge(&part)
 	}
-	return r
+}
+
+func serveLoop(sess *interp.Session, spkgs []*ssa.Package) {
+	in := bufio.NewReaderSize(os.Stdin, 1<<20)
+	out := bufio.NewWriter(os.Stdout)
+	for {
+		line, err := in.ReadBytes('\n')
+		if err != nil {
+			return
+		}
+		var req request
+		if json.Unmarshal(line, &req) != nil {
+			return
+		}
+		var f *ssa.Function
+		for _, sp := range spkgs {
+			if sp != nil && sp.Func(req.Harness) != nil {
+				f = sp.Func(req.Harness)
+			}
+		}
+		var res *interp.Result
+		if f == nil {
+			res = &interp.Result{Harness: req.Harness, Truncated: true, Ends: map[string]int{}, EndDetail: map[string]int{}, Reached: map[string]int{}}
+		} else {
+			res, _ = sess.ExploreFrom(f, req.Prefixes, 0)
+		}
+		b, _ := json.Marshal(res)
+		out.Write(b)
+		out.WriteByte('\n')
+		out.Flush()
+	}
 }
 
 func check(err error) {
